@@ -19,6 +19,8 @@ def run(F, rep):
     rep.engines.update(["E2-DT", "E2-BV", "E1"])
     rep.run(dt_filter.filter_tables, F, rep, "C05")
     rep.run(dt_filter.summarizer_tables, F, rep, "C05.6")
-    rep.run(common.run_kmer_lemmas, F, rep, {"bucket"})
+    # bucket(): first four bases; and the canonical-form tables (filter_kmers files every observation under min_rc_flip of its k-mer when
+    # unstranded — the filter table above takes that operation as given, these tables decide it for every k-mer type, odd K included)
+    rep.run(common.run_kmer_lemmas, F, rep, {"bucket", "canon"})
     rep.run(dt_seq.kmer_iter_tables, F, rep, "C05.8")
     rep.run(lemmas.kmer_iter_e2e_lemmas, F, rep, "L-iter")
